@@ -347,7 +347,11 @@ Definition mfcase_model (c : mfcase) : fields :=
   | ArtifactRes => artifact_resolve_fields (mf_cfg c) (mf_id c) (mf_arg c)
   end.
 Definition mfcase_agree (c : mfcase) : bool := fields_eqb (mfcase_model c) (mf_fields c).
-Definition check_mfcases := check_cases mfcase_agree (fun _ => true).
+(* the property's conclusion for message contents is exactly that the fields
+   recovered from the wire are the configured issuer, destination, ACS URL,
+   name-ID policy / name ID and the given IDs: the monitor is the comparison *)
+Definition mfcase_spec (c : mfcase) : bool := fields_eqb (mf_fields c) (mfcase_model c).
+Definition check_mfcases := check_cases mfcase_agree mfcase_spec.
 
 (* signing case (C13): kind, binding, method, key type; observed: constructor
    class (0 ok / 1 error / 2 panic), whether the emitted element carries an
